@@ -44,13 +44,23 @@ Lemma demo_queries_allowed :
   forall x, In x ids_demo -> query_ok no_inh (rope_tree w_demo) [0%nat] x = true.
 Proof. intros x Hx. repeat (destruct Hx as [<-|Hx]; [vm_compute; reflexivity|]). destruct Hx. Qed.
 
-(* ---- refutations (each witness is the replay input of an open finding) *)
+(* ---- two defects that are fixed in the code (repo commits faeb634, 2b4039e) and in the model: the former
+        [_refuted] witnesses, now positive examples; both inputs are replayed from corpus/C20 on every run *)
 
-(* the cursor after a word and a space: the "expression to complete" is the word without its last letter,
-   although no dot was typed: "abc " at offset 4 gives ("ab", "", 4) *)
-Lemma split_after_space_refuted :
-  split_in kws2 [97; 98; 99; 32]%N [97; 98; 99; 32]%N 4 = Some ([97; 98]%N, [], 4%N).
+(* the cursor after a word and a space: nothing is split off the word any more ("abc " at offset 4 used to give
+   the expression "ab") *)
+Lemma split_after_space_fixed :
+  split_in kws2 [97; 98; 99; 32]%N [97; 98; 99; 32]%N 4 = Some ([], [], 4%N).
 Proof. vm_compute. reflexivity. Qed.
+
+(* the attribute prefix typed after a dot is itself a keyword: "s.is" at offset 4 is now split like "s.ix"
+   (it used to give ("", "is", 2), as if nothing were dotted) *)
+Lemma dotted_keyword_prefix_fixed :
+  split_in [[105; 115]]%N [115; 46; 105; 115]%N [115; 46; 105; 115]%N 4 = Some ([115%N], [105; 115]%N, 2%N)
+  /\ split_in [[105; 115]]%N [115; 46; 105; 120]%N [115; 46; 105; 120]%N 4 = Some ([115%N], [105; 120]%N, 2%N).
+Proof. vm_compute. split; reflexivity. Qed.
+
+(* ---- refutations (each witness is the replay input of an open finding) *)
 
 (* later_locals = False on line 2 of [def fo(): pass / import os / zz = 1]: the assignment on line 4 is
    filtered, the import on line 3 is not *)
@@ -64,17 +74,21 @@ Proof.
   vm_compute. intros H. repeat (destruct H as [H|H]; [discriminate H|]). exact H.
 Qed.
 
-(* go-to-definition has no line for a walrus target (wa = 2) and for a name first declared by a bare
-   annotation (an = 3), although both are bound in the function (spec: s_binds lists them) *)
+(* go-to-definition has no line for a walrus target (wa = 2), although it is bound in the function (spec:
+   s_binds lists it).  The name first declared by a bare annotation (an = 3; [an: int] on line 3, [an = wa] on
+   line 4) used to have none either; since repo commit 5d25e3b it has the line of its first real assignment. *)
 Lemma definition_line_unknown_refuted :
   in_fragment_C15 w_line_unknown = true
   /\ definition_line world_line_unknown [0%nat] 2%N = None
-  /\ definition_line world_line_unknown [0%nat] 3%N = None
-  /\ (exists ss, sscope_at (spec_tree 6 w_line_unknown) [0%nat] = Some ss /\ In 2%N (sbound ss) /\ In 3%N (sbound ss)).
+  /\ (exists ss, sscope_at (spec_tree 6 w_line_unknown) [0%nat] = Some ss /\ In 2%N (sbound ss)).
 Proof.
-  split; [vm_compute; reflexivity|]. split; [vm_compute; reflexivity|]. split; [vm_compute; reflexivity|].
+  split; [vm_compute; reflexivity|]. split; [vm_compute; reflexivity|].
   eexists. split; [vm_compute; reflexivity|]. vm_compute. tauto.
 Qed.
+
+Lemma definition_line_annotation_fixed :
+  definition_line world_line_unknown [0%nat] 3%N = Some 4%N.
+Proof. vm_compute. reflexivity. Qed.
 
 (* ---- corollaries at the scope rope selects for a cursor line *)
 Section AtCursor.
